@@ -78,7 +78,18 @@ def gen_scenario(rng):
         cfg["t2"]["exact_recent_days"] = 30
         cfg["t2"].pop("tiers", None)
     # some scenarios boot from an (empty) snapshot directory: the first turn runs the real boot loader
-    return {"world": world, "cfg": cfg, "turns": turns, "boot_from_snapshot": boot}
+    sc = {"world": world, "cfg": cfg, "turns": turns, "boot_from_snapshot": boot}
+    if len(turns) >= 3 and rng.random() < 0.3:
+        # the engine is restarted in the middle of the scenario: a fresh state boots from the snapshots written so far
+        # (several agents have written into the shared directory by then; plans on every turn so that they do)
+        sc["reboot_at"] = rng.randint(2, len(turns) - 1)
+        cfg["t4"]["snapshot_every_n_turns"] = 1
+        ags = ["Zed", "Amy", "Moe"]
+        for j, t in enumerate(turns):
+            if j < sc["reboot_at"]:
+                t["agent"] = ags[j % len(ags)]
+            t.setdefault("plan", {"ops": [{"kind": "Speak"}, {"kind": "EditGraph"}], "deltas": [["node", f"n:{'abcd'[j % 4]}", "weight", 0.1 + 0.05 * j, 1]], "reflection": False})
+    return sc
 
 
 def variants_for(sc, rng, tier):
